@@ -121,13 +121,20 @@ class Ctx:
 
     def run_vh(self, args, timeout=1800, race=False, cwd=None):
         vh = self.build_vh(race=race)
-        p = subprocess.run([vh] + args, cwd=cwd or self.work, env=self.env, capture_output=True, text=True, timeout=timeout)
+        if self.tier == "thorough":
+            timeout = max(timeout, 4 * 3600)
+        try:
+            p = subprocess.run([vh] + args, cwd=cwd or self.work, env=self.env, capture_output=True, text=True, timeout=timeout)
+        except subprocess.TimeoutExpired:
+            raise Infra(f"vh {args[0]} did not finish within {timeout}s")
         return p
 
     # -- TLC ------------------------------------------------------------
     def tlc(self, module, cfg, name=None, workers=None, simulate=None, depth=None, seed=None,
             timeout=3600, extra_files=None, cfg_text=None, heap=None, deadlock=False, coverage=False):
         """Run TLC on spec/<module>.tla with spec/<cfg> (or cfg_text) in a scratch copy. Returns TLCRun."""
+        if self.tier == "thorough":
+            timeout = max(timeout, 3 * 3600)
         d = self.sub(name or f"tlc-{module}")
         for f in os.listdir(SPEC):
             if f.endswith(".tla"):
